@@ -505,10 +505,10 @@ var c05Cells = []struct {
 	{"cookie", "", nil}, {"cookie", "form", bp(false)}, {"cookie", "form", bp(true)},
 }
 
-var c05IntTexts = []string{"5", "-3", "0", "42", "7", "10", "2147483648", "+7", "0x10", "1_0", "007", "9223372036854775807", "9223372036854775808", "1.5", "abc", ""}
+var c05IntTexts = []string{"5", "-3", "0", "42", "7", "10", "2147483648", "+7", "0x10", "1_0", "007", "9223372036854775807", "9223372036854775808", "1.5", "abc", "", "100", "11"}
 var c05NumTexts = []string{"1.5", "-2", "3", "1e3", "0.1", "10", "NaN", "Inf", "1_0", "x", ""}
 var c05BoolTexts = []string{"true", "false", "1", "0", "T", "F", "True", "TRUE", "yes", ""}
-var c05StrTexts = []string{"a", "abc", "admin", "Alex", "x y", "a,b", "a.b", "a;b", "a=b", "a|b", "héllo", "", "12", "true"}
+var c05StrTexts = []string{"a", "abc", "admin", "Alex", "x y", "a,b", "a.b", "a;b", "a=b", "a|b", "héllo", "", "12", "true", "id", "idea", "dad", "i", "v1x", "color", "loco"}
 
 func c05PrimSchema(r *Rng) (*GSchema, []string) {
 	switch r.Intn(5) {
@@ -563,7 +563,7 @@ func pickText(r *Rng, pool []string, hostile bool) string {
 
 func c05Random(r *Rng) C05Case {
 	cell := Pick(r, c05Cells)
-	c := C05Case{In: cell.in, Style: cell.style, Explode: cell.explode, Name: "id", Required: r.Chance(40), AllowEmpty: r.Chance(15), Multi: r.Chance(25)}
+	c := C05Case{In: cell.in, Style: cell.style, Explode: cell.explode, Name: Pick(r, []string{"id", "id", "a", "v1", "color"}), Required: r.Chance(40), AllowEmpty: r.Chance(15), Multi: r.Chance(25)}
 	if c.In == "header" {
 		c.Name = "X-Id"
 	}
